@@ -391,7 +391,9 @@ def native_replay(name, vals, logf, watchdog=20):
 
 
 ENGINE_ONLY_UB = re.compile(r"__rust_alloc must be called with a size greater than 0|__rust_dealloc|"
-                            r"deallocated dynamic object|dead object|double free|free argument")
+                            r"deallocated dynamic object|dead object|double free|free argument|"
+                            r"dereference failure: (pointer invalid|pointer NULL|pointer outside object bounds|"
+                            r"invalid integer address)")
 IGNORED_CHECK = re.compile(r"^NaN on (addition|subtraction|multiplication|division)")
 
 
